@@ -195,6 +195,8 @@ def covering(m, covdir):
             _COVER[c] = set(open(p).read().split()) if os.path.exists(p) else set()
     key = "{}:{}".format(m["file"], m["line"])
     cov = [c for c in COST if key in _COVER[c]]
+    if not cov and m["file"] in ORDER and m["op"].startswith("const"):
+        cov = [c for c in COST if c in ORDER[m["file"]]]       # a continuation line of a table literal: no line event of its own
     if len(cov) >= 12:                      # an import-time line (constant, table row): every check executes it
         rel = ORDER.get(m["file"], ASM_ORDER)
         cov = [c for c in COST if c in rel]
